@@ -77,6 +77,9 @@ def systematic():
                 out.append(("alt", pre + "{q," + b + "}" + post, [pre + "q" + post, pre + b + post]))
                 out.append(("rep", pre + "<" + b + ":1,2>" + post, [pre + b + post, pre + b + b + post]))
                 out.append(("alt", pre + "{{" + b + "},q}" + post, [pre + b + post, pre + "q" + post]))
+    # combinators over NO patterns, alone and nested beside a member: the union of nothing is nothing
+    out += [("any", None, []), ("any-compiled", None, []), ("any-owned", None, []), ("any-nested", None, []), ("any-nested", None, ["a"]),
+            ("any-nested", None, ["a/**"]), ("any-nested", None, [""]), ("any-nested", None, ["*"]), ("any-nested", None, ["/**"])]
     return out
 
 
@@ -105,8 +108,6 @@ def run(rep, tier, seed, replay):
     for j, (law, whole, parts) in enumerate(fams):
         if whole is None:
             cmd = {"any": "A", "any-compiled": "AC", "any-owned": "AO", "any-nested": "AN"}[law]
-            if law == "any-nested" and len(parts) < 2:
-                cmd = "A"
             anyreq.append("%s %d %s" % (cmd, len(parts), " ".join(hexs(p) for p in parts)))
             anyidx.append(j)
     anyres = dict(zip(anyidx, h.ask(anyreq)))
@@ -129,7 +130,8 @@ def run(rep, tier, seed, replay):
                 rep.stats["skipped:any-does-not-build"] += 1
                 continue
             wp = a["pattern"]
-        union = "|".join("(?:%s)" % P.impl[ix[p]]["pattern"] for p in parts)
+        # the union of no patterns is the empty language
+        union = "|".join("(?:%s)" % P.impl[ix[p]]["pattern"] for p in parts) if parts else "[a&&b]"
         reqs.append("L %s %s" % (hexs(wp), hexs(union)))
         ridx.append(j)
     res = h.ask(reqs)
@@ -158,7 +160,7 @@ def run(rep, tier, seed, replay):
         if whole is not None:
             got_whole = h.ask(["M %s %s" % (hexs(whole), hexs(w))])[0].startswith("match")
         else:
-            mcmd = {"any": "MA", "any-compiled": "MAC", "any-owned": "MAO", "any-nested": "MAN" if len(parts) >= 2 else "MA"}[law]
+            mcmd = {"any": "MA", "any-compiled": "MAC", "any-owned": "MAO", "any-nested": "MAN"}[law]
             got_whole = h.ask(["%s %s %d %s" % (mcmd, hexs(w), len(parts), " ".join(hexs(p) for p in parts))])[0].startswith("match")
         got_parts = [h.ask(["M %s %s" % (hexs(p), hexs(w))])[0].startswith("match") for p in parts]
         if got_whole == any(got_parts):
